@@ -1108,9 +1108,21 @@ def _helper_rules(prog, C, info):
                     if is_call(r, "numpy.dtype") and r.args[1]:
                         d = tm.dotted(r.args[1][0])
                         got = d.split(".")[-1] if d else None
+            if got is None:
+                # table-driven helpers (a loop over a constant table of rows, a shared row lookup): the ladder evaluator
+                # unrolls them for this constant argument
+                try:
+                    from . import ladder as _LD
+                    v = _LD.Evaluator(prog, "indxio").call_const(fi, [size], 0)
+                    if isinstance(v, str):
+                        got = v
+                    elif isinstance(v, _LD.DType):
+                        got = v.name
+                except Exception:
+                    got = None
             same = got == want or (name.endswith("format") and got is not None and _fmt_key(got) is not None and _fmt_key(got) == _fmt_key(want))
             C.ok(same, "R-C10-c", fi.fq, "%s(%d)" % (name, size), "-> %s" % (got,), "%s(%d) yields %r%s, the documented word needs %r" % (name, size, got, " (%s bytes)" % _fmt_key(got)[1] if got and _fmt_key(got) else "", want),
-                 undecided=(len(rets) != 1 or got is None))
+                 undecided=(got is None))
 
 
 # ---------------------------------------------------------------------------- writer vs reader
